@@ -316,10 +316,39 @@ func Run(progs []Prog) {
 	perProg := flag.Duration("timeout", 60*time.Second, "per-program watchdog")
 	replayAns := flag.String("ans", "", "replay: comma separated answers (with -only)")
 	replayPanic := flag.Int("panicat", -1, "replay: event index to panic at")
+	mode := flag.String("mode", "explore", "explore | c14 | c14race | c17")
+	kFlag := flag.Int("k", 2, "c14: live iterators")
+	mFlag := flag.Int("m", 3, "c14: advances per iterator")
+	rounds := flag.Int("rounds", 50, "c14race: rounds")
+	params := flag.String("params", "", "c17: comma separated parameters")
 	flag.Parse()
 	debug.SetMaxStack(256 << 20)
 	w := bufio.NewWriter(os.Stdout)
 	defer w.Flush()
+	switch *mode {
+	case "c14":
+		runC14(w, progs, *kFlag, *mFlag)
+		return
+	case "c14race":
+		runC14Race(w, progs, *mFlag, *rounds)
+		return
+	case "c17":
+		debug.SetMaxStack(1 << 30)
+		var ps []int
+		for _, s := range strings.Split(*params, ",") {
+			if s != "" {
+				var v int
+				fmt.Sscan(s, &v)
+				ps = append(ps, v)
+			}
+		}
+		for i := range progs {
+			if progs[i].ID == *only {
+				runC17(w, &progs[i], ps)
+			}
+		}
+		return
+	}
 	enc := json.NewEncoder(w)
 	for i := *from; i < len(progs); i++ {
 		p := &progs[i]
